@@ -817,6 +817,7 @@ public:
             if (r == z3::unknown) throw EngineError("solver unknown at assert " + id);
             if (r == z3::sat) {
                 reportViolation(s, "assert", id, "assertion " + id + " can fail", &bad);
+                if (bad.is_true()) return true;   // concretely false condition: reported; later assertions of this path are still evaluated
                 addPc(s, !bad);  // continue on the passing side if feasible
                 z3::expr t = ZC.bool_val(true);
                 if (check(s, &t) != z3::sat) return false;
@@ -1349,6 +1350,14 @@ public:
                         Val neg = binop(Instruction::Sub, Val(a.bits, 0), a, s);
                         Val c = icmp(CmpInst::ICMP_SLT, a, Val(a.bits, 0));
                         setReg(s, &I, !c.sym ? (c.c ? neg : a) : mkSym(a.bits, z3::ite(toBool(c), neg.ex(), a.ex())));
+                        break;
+                    }
+                    case Intrinsic::fmuladd: case Intrinsic::fma: {
+                        Val a = op(s, cb.getArgOperand(0)), b = op(s, cb.getArgOperand(1)), c = op(s, cb.getArgOperand(2));
+                        if (a.sym || b.sym || c.sym || a.bits != 64) throw EngineError("symbolic or non-double fmuladd");
+                        double x, y, z; memcpy(&x, &a.c, 8); memcpy(&y, &b.c, 8); memcpy(&z, &c.c, 8);
+                        double r = x * y + z; uint64_t u; memcpy(&u, &r, 8);
+                        setReg(s, &I, Val(64, u));
                         break;
                     }
                     case Intrinsic::ctlz: case Intrinsic::cttz: case Intrinsic::ctpop: case Intrinsic::bswap: {
